@@ -472,3 +472,20 @@ package app
 //@   props C14
 //@   requires ctx != nil
 //@   top-ensures ctx.Request.bodyStream != nil ==> r == ctx.Request.bodyStream
+
+// ---- C08: the cache cleaner closes only files nobody reads ----
+// A cached file is shared by its readers (small files even share the descriptor). What the cleaner puts on the list
+// of files to close - from the pending list of the previous run and from the two caches - has no reader left;
+// everything else stays pending. (Sequential reasoning under h.cacheLock; readers of a file no longer in the cache
+// can only go away.)
+//@ func fsHandler.cleanCache(h, pendingFiles) r
+//@   props C08
+//@   abstract
+//@   noinline
+//@   assert before append#1: ff.readersCount <= 0
+
+//@ func cleanCacheNolock(cache, pendingFiles, filesToRelease, cacheDuration) r0, r1
+//@   props C08
+//@   abstract
+//@   noinline
+//@   assert before append#1: ff.readersCount <= 0
